@@ -138,6 +138,14 @@ class C02(MsgProp):
                 if not thorough and r.random() < 0.5:
                     continue
                 yield ("DEC " + hx(mk_frame(msm_payload(r, n, ns, ng))), "msm-masks", True)
+        # every single satellite-mask bit and signal-mask bit on its own (one MSM type per constellation in the
+        # quick tier, all 49 in the thorough tier)
+        singles = MSM_NUMBERS if thorough else [x for x in MSM_NUMBERS if x % 10 == 4]
+        for n in singles:
+            for bit in range(64):
+                yield ("DEC " + hx(mk_frame(msm_payload_bits(r, n, [bit], [r.randrange(1, 32)]))), "msm-single-sat-bit", True)
+            for bit in range(32):
+                yield ("DEC " + hx(mk_frame(msm_payload_bits(r, n, [r.randrange(64)], [bit]))), "msm-single-sig-bit", True)
         for n in (1059, 1065):
             for (ns, nb) in [(13, 31), (63, 31), (63, 6), (1, 31), (0, 0), (32, 12)]:
                 yield ("DEC " + hx(mk_frame(bias_payload(r, n, ns, nb))), "bias-max-counts", True)
@@ -177,6 +185,19 @@ def msm_payload(r, n, ns, ng):
         sig[i] = 1
     bits += sat + sig
     bits += [r.getrandbits(1) for _ in range(r.choice([0, 64, 800, 4000]))]
+    return bits_to_bytes(bits)[:1023]
+
+
+def msm_payload_bits(r, n, satbits, sigbits):
+    """MSM payload with exactly the given satellite-mask / signal-mask bit positions (0 = MSB) set"""
+    bits = int_bits(n, 12) + [r.getrandbits(1) for _ in range(61)]
+    sat = [0] * 64
+    for i in satbits:
+        sat[i] = 1
+    sig = [0] * 32
+    for i in sigbits:
+        sig[i] = 1
+    bits += sat + sig + [r.getrandbits(1) for _ in range(400)]
     return bits_to_bytes(bits)[:1023]
 
 
@@ -298,6 +319,9 @@ class C12(MsgProp):
                                 yield ("BUILDSEQ " + a + " ; " + b, "length-ladder", True)
                                 if pairs % 5 == 0:
                                     yield ("BUILDSEQ " + r.choice(big) + " ; " + a + " ; " + b, "length-ladder-3", True)
+                                if pairs % 7 == 0:
+                                    yield ("BUILDSEQ " + a + " ; " + r.choice(early_fail + late_fail) + " ; " + b, "ladder-with-failed-build", True)
+                                    yield ("BUILDSEQ " + r.choice(late_fail) + " ; " + b, "failed-then-target", True)
         n_seq = 150 if ctx.tier == "quick" else 2500
         for _ in range(n_seq):
             k = r.randrange(1, 7 if ctx.tier == "quick" else 11)
